@@ -547,6 +547,11 @@ func RunCheck(o CheckOptions) int {
 	for k, v := range tot.Extra {
 		cov["x_"+k] = v
 	}
+	if a, ok := e.(interface {
+		Annotate(cov map[string]interface{})
+	}); ok {
+		a.Annotate(cov)
+	}
 	ev["coverage"] = cov
 	if eb, err := json.MarshalIndent(ev, "", " "); err == nil {
 		evDir := filepath.Join(o.VerifDir, "evidence")
